@@ -83,9 +83,8 @@ def is_read(rw):
 
 def forms_of(kind, canonical=False):
     if kind == "tmp":
-        # an explicit Temporary has no assignment operator in traced code.  (Inline code could define it - `{x} := ..` -
-        # but that space is not enumerated: see notes/C07.md, "Temporary defined by inline code in an always block")
-        return []
+        # an explicit Temporary has no assignment operator in traced code: only inline code can define it (`{x} := ..`)
+        return ["wi"] if canonical else ["wi", "we"]
     if kind == "var":
         return CANON_FORMS["var"] if canonical else VAR_FORMS
     return CANON_FORMS["sig"] if canonical else SIGNAL_FORMS
@@ -287,6 +286,8 @@ def abstract(kind, accs, api=DEFAULT_API):
     `cohdl.reset_pushed()` (always present in std.sequential, optional with the core API) is expanded by
     `Sequential.__init__` into an assignment of the default to every signal pushed in the context: a WRITE access"""
     kinds = [KIND_CHAR[kind], "i", "o", "o", "o"]
+    # (explicit Temporaries written by inline code inside an always block are rejected - fixes/C07-inline-temporary-in-always-block)
+    root_in = {"A": "0", "B": "0", "C": "0"}
     body = {"A": [], "B": [], "C": []}
     pushed = {"A": False, "B": False, "C": False}
     insts = []
@@ -304,15 +305,16 @@ def abstract(kind, accs, api=DEFAULT_API):
         elif pl == "AE":
             t = len(kinds)
             kinds.append("s")
-            body["A"] += [f"r0a", f"w{t}a", f"r{t}", f"w{sink}"]
+            body["A"] += [f"r{root_in['A']}a", f"w{t}a", f"r{t}", f"w{sink}"]
         else:
             a = "a" if pl in ("AA", "BA") else ""
+            x = root_in[CTX_OF[pl]]
             if is_read(rw):
-                body[CTX_OF[pl]] += [f"r0{a}", f"w{sink}{a}"]
+                body[CTX_OF[pl]] += [f"r{x}{a}", f"w{sink}{a}"]
             elif rw == "we":  # the expression also feeds the sink
-                body[CTX_OF[pl]] += [f"r1{a}", f"w0{a}", f"w{sink}{a}"]
+                body[CTX_OF[pl]] += [f"r1{a}", f"w{x}{a}", f"w{sink}{a}"]
             else:
-                body[CTX_OF[pl]] += [f"r1{a}", ("p0" if is_push(rw) else "w0") + a]
+                body[CTX_OF[pl]] += [f"r1{a}", ("p" if is_push(rw) else "w") + x + a]
                 if is_push(rw) and not a:
                     pushed[CTX_OF[pl]] = True
     toks = ["check", "kinds", "".join(kinds)]
@@ -701,13 +703,13 @@ def inline_designs(quick=True):
     canonical form, with another inline writer and with the instance placements, on disjoint and identical parts"""
     out = []
     for kind in KINDS:
-        if kind in ("tmp", "pin"):
-            continue  # Temporary: no inline definitions enumerated; input port: every single write is rejected (singles)
+        if kind == "pin":
+            continue  # input port: every single write is rejected (singles)
         combos = PAIR_COMBOS.get(kind, PAIR_COMBOS[None])
         if quick and kind == "pinout":
             continue  # same decisions as the output port; thorough tier and random part only
         combos = (combos[:2] if kind == "sig" else combos[:1] if kind == "arr" else combos[1:2]) if quick else combos[:2 if kind != "sig" else 4]
-        forms = ["wi", "we"] if (kind in ("sig", "var") or not quick) else ["we"]
+        forms = ["wi", "we"] if (kind in ("sig", "var", "tmp") or not quick) else ["we"]
         inl = [(pl, f) for pl in RW_PLACEMENTS for f in forms]
         others = sorted({(pl, rw) for pl, _, rw in access_types(kind, canonical=True)} | set(inl))
         for ci, (pa, pb) in enumerate(combos):
@@ -715,7 +717,7 @@ def inline_designs(quick=True):
                 if quick and kind == "sig" and ci == 1 and f1 == "wi":
                     continue  # statement form: one part combination in the quick tier
                 for (pl2, rw2) in others:
-                    if kind != "var" and is_read(rw2):
+                    if kind not in ("var", "tmp") and is_read(rw2):
                         continue  # a reader next to an inline writer of a signal: covered by the sampled part
                     out.append((kind, canon(((pl1, pa, f1), (pl2, pb, rw2))), DEFAULT_API))
     return out
